@@ -7,7 +7,7 @@ declare -A PROP=( [2f5f7b3]=C05 [6fd9e7a]=C05 [5b08089]=C05 [d24852e]=C05 [aba71
  [6d3f601]=C10 [2c0c7d0]=C19 [0c2b523]=C20 [e875e2c]=C20 [0aa42b0]=C16 [67e5baa]=C17 [de881bc]=C17 [7789e41]=C09 [b422535]=C09
  [60a24fc]=C08 [2bfafb2]=C08 [4b2e36f]=C08 [146b85d]=C02 [d0f70d0]=C16 [b922718]=C08 [0d6c3a0]=C08 [3b5c468]=C01 [28bb696]=C04 [23aed92]=C13 [0dfe8ef]=C05 [25b963c]=C11 [00a17cc]=C03 [4cf5e71]=C01 [b426593]=C16 [6fea589]=C05 [c22ceec]=C07 [650e6b7]=C09 [7ea8636]=C09 [d94181e]=C19 [a6a2a07]=C20 [e5bc2b5]=C18 [2fae1e9]=C18 [095124c]=C18 [948e790]=C15 [4b3640c]=C11 [b3691d0]=C13 [51081ab]=C14 )
 shas="$@"; [ -z "$shas" ] && shas="${!PROP[@]}"
-export VERIF_EVIDENCE_DIR=/tmp/fixguard-ev; mkdir -p $VERIF_EVIDENCE_DIR
+export VERIF_EVIDENCE_DIR=/tmp/fixguard-ev-$$; mkdir -p $VERIF_EVIDENCE_DIR
 for sha in $shas; do
   prop=${PROP[$sha]}
   WT=$(mktemp -d /tmp/wtfg-XXXX); rmdir $WT; git -C /repo worktree add -q --detach $WT HEAD
